@@ -14,6 +14,7 @@ from gambatools.automaton_algorithms import default_state_label_regex, Automaton
 from gambatools.dfa import State, Symbol
 from gambatools.dfa_algorithms import fresh_state
 from gambatools.global_settings import GambaTools
+from gambatools import _verif
 from gambatools.pda import PDA
 from gambatools.cfg import CFG, Variable, Terminal, Rule, Alternative
 
@@ -258,10 +259,13 @@ def pda_epsilon_closure(P: PDA, R: Iterable[PDAState]) -> Set[PDAState]:
     # reason we limit the number of iterations of the loop.
     max_iterations = GambaTools.pda_epsilon_closure_max_iterations
     iteration = 0
+    if _verif.ON and _verif.DETAIL: _verif.emit('pc.start', start=[(r.q, list(r.stack)) for r in result], limit=max_iterations)
 
     while len(todo) > 0 and iteration < max_iterations:
         iteration += 1
+        if _verif.ON and _verif.DETAIL: _rest = _verif.force('pc.pop', todo)
         src = todo.pop()
+        if _verif.ON and _verif.DETAIL: _verif.restore(todo, _rest)
         for (p, a, u), Q1 in delta.items():
             if p != src.q or a != epsilon:
                 continue
@@ -272,6 +276,8 @@ def pda_epsilon_closure(P: PDA, R: Iterable[PDAState]) -> Set[PDAState]:
                     if target not in result:
                         todo.add(target)
                         result.add(target)
+        if _verif.ON and _verif.DETAIL: _verif.emit('pc.pop', src=(src.q, list(src.stack)), nresult=len(result), todo=[(r.q, list(r.stack)) for r in todo])
+    if _verif.ON and _verif.DETAIL: _verif.emit('pc.end', result=[(r.q, list(r.stack)) for r in result])
     return result
 
 
